@@ -347,10 +347,15 @@ func runHistory(p *Plan, tree *refTree, res *simcore.Result, bubble bool) {
 // (NOTES.md). They are reported unless known_findings.jsonl lists their key;
 // CHAINSIM_ASSUME_FINDINGS=1 (development only) treats them as listed.
 var treeFindings = map[string]bool{
-	"head-state-missing:reinsert-known-canonical-block-rolls-state-back":             true,
-	"logs-never-announced:known-block-made-head-again":                               true,
-	"added-log-twice:already-canonical-block-made-head-again":                        true,
-	"restart-head-changed:pathdb-journal-failed-layer-stale":                         true,
+	"head-state-missing:reinsert-known-canonical-block-rolls-state-back": true,
+	"logs-never-announced:known-block-made-head-again":                   true,
+	"added-log-twice:already-canonical-block-made-head-again":            true,
+	"restart-head-changed:pathdb-journal-failed-layer-stale":             true,
+	// C39: freezer-level causes already recorded under C24 (torn .meta file after power loss)
+	"reboot-canon-above-head:header-head-was-ahead-of-block-head":                    true,
+	"reboot-failed:power-loss:torn-freezer-metadata":                                 true,
+	"reboot-failed:power-loss:non-prunable-table-nonzero-tail":                       true,
+	"reboot-failed:process-crash:non-prunable-table-nonzero-tail":                    true,
 	"txlookup-wrong:stale-lookup-cache":                                              true,
 	"head-state-incomplete:pathdb-dangling-sibling-layer-stale":                      true,
 	"canon-above-head:header-head-was-ahead-of-block-head":                           true,
